@@ -251,6 +251,7 @@ impl<'c, 's> WriterBuilder<'c, 's> {
 				block_header_size: None,
 			},
 			writer: Some(writer),
+			flush_failed: false,
 		})
 	}
 }
@@ -330,6 +331,9 @@ impl<'c, 's> WriterBuilder<'c, 's> {
 pub struct Writer<'c, 's, W: Write> {
 	inner: WriterInner<'c, 's>,
 	writer: Option<W>,
+	/// Set when writing a block to `writer` failed: we don't know how much of the
+	/// block has been written, so there is no way to resume writing to it
+	flush_failed: bool,
 }
 
 impl<'c, 's, W: Write> Writer<'c, 's, W> {
@@ -392,11 +396,15 @@ impl<'c, 's, W: Write> Writer<'c, 's, W> {
 	/// Flush the final block (if a block was started) then return the
 	/// underlying writer.
 	pub fn into_inner(mut self) -> Result<W, SerError> {
-		self.finish_block()?;
-		Ok(self
+		let res = self.finish_block();
+		// Whether or not this was successful, we take the writer out, so that we don't try
+		// to flush again when dropping `self` (that would be a second attempt at
+		// writing to a writer that just failed, and we are already reporting the error)
+		let writer = self
 			.writer
 			.take()
-			.expect("Only called by this function, which takes ownership"))
+			.expect("Only called by this function, which takes ownership");
+		res.map(|()| writer)
 	}
 
 	/// Flush the current block (if a block was started)
@@ -422,17 +430,26 @@ impl<'c, 's, W: Write> Writer<'c, 's, W> {
 						flush_finished_block is called, which guarantees that block_header_size \
 						is None",
 				);
+				if self.flush_failed {
+					// Part of this block may already have been written: writing it again from the
+					// start would corrupt the output
+					return Err(SerError::new(
+						"A previous attempt at writing a block to the writer failed, \
+							so the output can't be resumed",
+					));
+				}
 				// To be replaced with std's write_all_vectored once that is stabilized
 				// https://github.com/rust-lang/rust/issues/70436
-				vectored_write_polyfill::write_all_vectored(
+				let res = vectored_write_polyfill::write_all_vectored(
 					writer,
 					[
 						&self.inner.block_header_buffer[..block_header_size.get()],
 						self.inner.compressed_block(),
 						&self.inner.sync_marker,
 					],
-				)
-				.map_err(SerError::io)?;
+				);
+				self.flush_failed = res.is_err();
+				res.map_err(SerError::io)?;
 				self.inner.block_header_size = None; // Mark that we have flushed
 				self.inner.serializer_state.writer_mut().clear();
 			}
@@ -492,6 +509,11 @@ impl<'c, 's, W: Write> Writer<'c, 's, W> {
 
 impl<'c, 's, W: Write> Drop for Writer<'c, 's, W> {
 	fn drop(&mut self) {
+		if self.writer.is_none() || self.flush_failed {
+			// `into_inner` was called, or writing failed (which was already reported):
+			// there's nothing left that we could flush to
+			return;
+		}
 		let panicking = std::thread::panicking();
 		let res = match panicking {
 			false => self.finish_block(),
